@@ -42,7 +42,7 @@ int f(int k, const int &q, int &w) { int l[2] = {k, q}; if (k > 0) { w = l[0]; }
 void g() { int i; for (i = 0; i < N; i++) { b[i] = i; } }
 int gw;
 process P(const id_t id, int &w) {
-clock y; int loc[2]; int e[sc_t][id_t];
+clock y; int loc[2]; int e[sc_t][id_t]; int e3[id_t][sc_t][id_t][2];
 state L0 { y <= 5 }, L1 { y <= 3 ; 2 }, L2;
 branchpoint B1;
 commit L2;
